@@ -201,6 +201,8 @@ func newWorld(cfg map[string]int64, rec *kernel.Rec) (*world, error) {
 		deployCode(erc20contracts.ERC20DirectBalanceManipulationContract.ABI, erc20contracts.ERC20DirectBalanceManipulationContract.Bin, big.NewInt(0)),
 		// a second instance with the same name, symbol and decimals as ext[0]: a legitimate target for UpdateTokenPairERC20
 		deployCode(erc20contracts.ERC20MinterBurnerDecimalsContract.ABI, erc20contracts.ERC20MinterBurnerDecimalsContract.Bin, "exttoken", "EXT", uint8(6)),
+		// a token whose transfer() can be switched to return false instead of reverting (ext[4])
+		liarInit(),
 	}
 	for _, code := range codes {
 		nonce := w.c.App.EvmKeeper.GetNonce(w.c.ReadCtx(), w.gov.Eth)
